@@ -14,10 +14,7 @@ import (
 func ruleIDX5(c *Ctx) []Ob {
 	o := newObs(c, "IDX5")
 	r := c.Roles()
-	isMWCall := func(call ssa.CallInstruction) bool {
-		g := staticCallee(call)
-		return g != nil && r.isMetaWriter(c.declared(g))
-	}
+	isMWCall := func(call ssa.CallInstruction) bool { return c.callsMetaWriter(call) }
 	for _, fn := range c.LibFuncs {
 		if c.pkgRel(fn) != "" {
 			continue
@@ -63,6 +60,49 @@ func ruleIDX5(c *Ctx) []Ob {
 		allCalls(fn, func(call ssa.CallInstruction) {
 			if !c.isInvokeOf(call, "index", "Index", "Drop") {
 				return
+			}
+			// the index that is dropped is the one named by the caller: its field comes from a
+			// parameter, or from a catalog entry read before the catalog slice is modified
+			{
+				k2 := c.fname(fn) + "/drops the requested index"
+				ctor := c.lookupFunc("index", "CreateIndex")
+				verdict, why := OK, "the dropped index is built from the field the caller named"
+				for _, ro := range origins(call.Common().Value) {
+					cc, isCall := ro.(*ssa.Call)
+					if !isCall || staticCallee(cc) == nil || c.declared(staticCallee(cc)) != ctor || len(cc.Common().Args) < 2 {
+						verdict, why = UNDECIDED, "the dropped index is not built by index.CreateIndex here"
+						continue
+					}
+					for _, fo := range c.paramSources(cc.Common().Args[1], 0) {
+						switch x := fo.(type) {
+						case *ssa.Parameter:
+						case *ssa.UnOp:
+							// a load from the catalog: no store into catalog entries may precede it
+							stale := false
+							for _, b2 := range fn.Blocks {
+								for _, in2 := range b2.Instrs {
+									st, isSt := in2.(*ssa.Store)
+									if !isSt {
+										continue
+									}
+									addr := st.Addr
+									if fa, isFA := addr.(*ssa.FieldAddr); isFA {
+										addr = fa.X
+									}
+									if _, isIA := addr.(*ssa.IndexAddr); isIA && reachesAfter(st, x) {
+										stale = true
+									}
+								}
+							}
+							if stale {
+								verdict, why = VIOLATED, "the field of the index to drop is read from a catalog slot after the catalog slice has been rearranged (swap-remove): a pointer into the slice now designates another index, whose entries are erased while the dropped index's entries stay behind"
+							}
+						default:
+							verdict, why = UNDECIDED, "where the dropped index's field comes from was not established"
+						}
+					}
+				}
+				o.add(verdict, k2, relPath(c, call.Pos()), "%s", why)
 			}
 			key := c.fname(fn) + "/drop entries then catalog write"
 			pos := relPath(c, call.Pos())
@@ -1253,6 +1293,308 @@ func ruleCNT1(c *Ctx) []Ob {
 	}
 	if n == 0 {
 		o.add(INFO, "counter-shortcut", "-", "no function combines GetSkip and GetLimit arithmetically (Count not served from the counter)")
+	}
+	return o.list
+}
+
+// ---------------------------------------------------------------- PANIC2
+
+// PANIC2: no `==`/`!=` between two interface values that may both hold
+// document values: if both hold a slice or a map the comparison panics at run
+// time ("comparing uncomparable type"). Comparing with a constant, with nil or
+// with an error is safe (types differ, or the type is comparable).
+func rulePANIC2(c *Ctx) []Ob {
+	o := newObs(c, "PANIC2")
+	n := 0
+	isEmptyIface := func(t types.Type) bool {
+		it, ok := t.Underlying().(*types.Interface)
+		return ok && it.NumMethods() == 0
+	}
+	for _, fn := range c.LibFuncs {
+		if strings.HasPrefix(c.pkgRel(fn), "store") {
+			continue
+		}
+		for _, b := range fn.Blocks {
+			for _, in := range b.Instrs {
+				bo, ok := in.(*ssa.BinOp)
+				if !ok || (bo.Op != token.EQL && bo.Op != token.NEQ) {
+					continue
+				}
+				if !isEmptyIface(bo.X.Type()) || !isEmptyIface(bo.Y.Type()) {
+					continue
+				}
+				constSide := func(v ssa.Value) bool {
+					v = stripIfaceOnly(v)
+					if _, isC := v.(*ssa.Const); isC {
+						return true
+					}
+					// a freshly boxed value of a comparable basic type
+					if mi, ok := v.(*ssa.MakeInterface); ok {
+						_, basic := mi.X.Type().Underlying().(*types.Basic)
+						return basic
+					}
+					if _, isIface := v.Type().Underlying().(*types.Interface); !isIface {
+						_, basic := v.Type().Underlying().(*types.Basic)
+						return basic
+					}
+					return false
+				}
+				n++
+				key := c.fname(fn) + "/interface comparison"
+				if constSide(bo.X) || constSide(bo.Y) {
+					o.add(OK, key+" with a constant", relPath(c, bo.Pos()), "one side is a constant / basic value: the comparison cannot panic")
+					continue
+				}
+				o.add(VIOLATED, key, relPath(c, bo.Pos()), "two interface{} values are compared with %s: when both hold an array or an object (legal document values and criteria operands) Go panics with `comparing uncomparable type`; use internal.Compare", bo.Op)
+			}
+		}
+	}
+	if n == 0 {
+		o.add(OK, "no interface comparisons", "-", "the library never compares two interface{} values with ==/!=")
+	}
+	return o.list
+}
+
+// ---------------------------------------------------------------- NORM1
+
+// NORM1: the criteria operations filter with is the caller's criteria after
+// literal normalisation only. Where(x) in the root package receives the
+// asserted result of Accept(<the normalising visitor>) and of nothing else
+// (a negation-flattened tree is for planning, it is not equivalent under Satisfy).
+func ruleNORM1(c *Ctx) []Ob {
+	o := newObs(c, "NORM1")
+	whereM := c.lookupMethod("query", "Query", "Where")
+	normalize := c.lookupFunc("internal", "Normalize")
+	isNormVisitor := func(n *types.Named) bool {
+		if n == nil {
+			return false
+		}
+		for _, m := range c.visitorMethods(n) {
+			found := false
+			allCalls(m, func(call ssa.CallInstruction) {
+				if g := staticCallee(call); g != nil && c.declared(g) == normalize {
+					found = true
+				}
+			})
+			if found {
+				return true
+			}
+		}
+		return false
+	}
+	n := 0
+	for _, fn := range c.LibFuncs {
+		if c.pkgRel(fn) != "" {
+			continue
+		}
+		allCalls(fn, func(call ssa.CallInstruction) {
+			g := staticCallee(call)
+			if g == nil || whereM == nil || c.declared(g) != whereM {
+				return
+			}
+			n++
+			key := c.fname(fn) + "/Where(normalised criteria)"
+			pos := relPath(c, call.Pos())
+			arg := call.Common().Args[1]
+			okAll := true
+			why := ""
+			for _, og := range origins(arg) {
+				ta, isTA := og.(*ssa.TypeAssert)
+				if !isTA {
+					okAll, why = false, "not the result of a criteria visitor"
+					continue
+				}
+				_, vis := c.visitCallOf(ta.X)
+				if vis == nil {
+					okAll, why = false, "not the result of a criteria visitor"
+					continue
+				}
+				vt := c.visitorTypeOf(vis)
+				if !isNormVisitor(vt) {
+					okAll = false
+					why = "the result of " + namedName(vt) + ", which rewrites the criteria"
+					continue
+				}
+				// and the visited criteria is the query's own
+				ac, _ := c.visitCallOf(ta.X)
+				if ac != nil && ac.Common().IsInvoke() {
+					for _, ro := range origins(ac.Common().Value) {
+						rc, isCall := ro.(*ssa.Call)
+						if !isCall || staticCallee(rc) == nil || c.declared(staticCallee(rc)) != c.lookupMethod("query", "Query", "Criteria") {
+							okAll, why = false, "a criteria that was already rewritten by another visitor"
+						}
+					}
+				}
+			}
+			if okAll {
+				o.add(OK, key, pos, "the filter criteria is the query's own criteria with literals normalised, nothing else")
+			} else {
+				o.add(VIOLATED, key, pos, "the query's criteria is replaced by %s: a rewritten tree (negation push-down turns Not(Eq) into Lt Or Gt) is not equivalent under Satisfy for absent fields and nil operands, so Not/Neq stop following their truth tables", why)
+			}
+		})
+	}
+	if n == 0 {
+		o.add(UNDECIDED, "Where", "-", "no Where call in the root package: where literal normalisation happens was not established")
+	}
+	return o.list
+}
+
+// ---------------------------------------------------------------- RNG1
+
+// RNG1: in package index, a value stored into Range.Start / End /
+// StartIncluded / EndIncluded is computed only from the *same* field of other
+// ranges (through phis, boolean operators and the conditions of short-circuit
+// evaluation): the start flag never decides the end flag and vice versa.
+func ruleRNG1(c *Ctx) []Ob {
+	o := newObs(c, "RNG1")
+	isRangeField := func(v ssa.Value) string {
+		_, f, n := fieldLoad(v)
+		if f != "" && n != nil && c.libNamedIs(n, "index", "Range") {
+			return f
+		}
+		return ""
+	}
+	for _, fn := range c.LibFuncs {
+		if c.pkgRel(fn) != "index" {
+			continue
+		}
+		for _, b := range fn.Blocks {
+			for _, in := range b.Instrs {
+				st, ok := in.(*ssa.Store)
+				if !ok {
+					continue
+				}
+				_, f, n := fieldOfAddr(st.Addr)
+				if f == "" || n == nil || !c.libNamedIs(n, "index", "Range") {
+					continue
+				}
+				used := map[string]bool{}
+				seen := map[ssa.Value]bool{}
+				var walk func(v ssa.Value)
+				walk = func(v ssa.Value) {
+					if v == nil || seen[v] {
+						return
+					}
+					seen[v] = true
+					if rf := isRangeField(v); rf != "" {
+						used[rf] = true
+						return
+					}
+					switch x := v.(type) {
+					case *ssa.Phi:
+						for _, e := range x.Edges {
+							walk(e)
+						}
+						// short-circuit evaluation: the conditions that select the incoming edge
+						if isBoolType(x.Type()) {
+							for _, p := range x.Block().Preds {
+								if len(p.Instrs) > 0 {
+									if iff, ok := p.Instrs[len(p.Instrs)-1].(*ssa.If); ok {
+										walk(iff.Cond)
+									}
+								}
+							}
+						}
+					case *ssa.BinOp:
+						if isBoolType(x.Type()) && (x.Op == token.AND || x.Op == token.OR || x.Op == token.LAND || x.Op == token.LOR) {
+							walk(x.X)
+							walk(x.Y)
+						}
+					case *ssa.UnOp:
+						if x.Op == token.NOT {
+							walk(x.X)
+						}
+					case *ssa.MakeInterface:
+						walk(x.X)
+					}
+				}
+				walk(st.Val)
+				key := c.fname(fn) + "/store Range." + f
+				bad := ""
+				for u := range used {
+					if u != f {
+						bad = u
+					}
+				}
+				if bad != "" {
+					o.add(VIOLATED, key, relPath(c, st.Pos()), "Range.%s is computed from Range.%s of another range: the inclusivity/bound of one end leaks into the other, so an intersection can exclude a value contained in both ranges", f, bad)
+				} else {
+					o.add(OK, key, relPath(c, st.Pos()), "computed from constants and the same field of other ranges only")
+				}
+			}
+		}
+	}
+	return o.list
+}
+
+func isBoolType(t types.Type) bool {
+	b, ok := t.Underlying().(*types.Basic)
+	return ok && b.Kind() == types.Bool
+}
+
+// ---------------------------------------------------------------- ADP5
+
+// ADP5: a scan that deletes the item its cursor is on (Index.Drop) is the first
+// write of its transaction. bbolt tolerates delete-during-iteration only while
+// the leaf pages under the cursor are still the read-only mapped ones; once an
+// earlier write of the same transaction has turned a leaf into an in-memory
+// node, each delete shifts the entries under the cursor and every second key
+// survives. badger iterates a snapshot and is unaffected - so the two backends
+// diverge.
+func ruleADP5(c *Ctx) []Ob {
+	o := newObs(c, "ADP5")
+	// functions that delete inside a cursor loop
+	deletesWhileIterating := map[*ssa.Function]bool{}
+	for _, fn := range c.LibFuncs {
+		if c.localEff(fn)&EffCursor == 0 {
+			continue
+		}
+		allCalls(fn, func(call ssa.CallInstruction) {
+			if c.isInvokeOf(call, "store", "Tx", "Delete") && c.inLoop(call.Block()) {
+				deletesWhileIterating[fn] = true
+			}
+		})
+	}
+	n := 0
+	for _, fn := range c.LibFuncs {
+		allCalls(fn, func(call ssa.CallInstruction) {
+			hit := false
+			cc := call.Common()
+			if cc.IsInvoke() {
+				for _, impl := range c.libImpls(cc.Method) {
+					if deletesWhileIterating[impl] {
+						hit = true
+					}
+				}
+			} else if g := staticCallee(call); g != nil && deletesWhileIterating[c.declared(g)] {
+				hit = true
+			}
+			if !hit {
+				return
+			}
+			n++
+			key := c.fname(fn) + "/" + c.calleeName(call) + " is the transaction's first write"
+			bad := ""
+			allCalls(fn, func(w ssa.CallInstruction) {
+				if w == call {
+					return
+				}
+				if _, isDefer := w.(*ssa.Defer); isDefer {
+					return
+				}
+				if c.callEff(w)&EffWrites != 0 && reachesAfter(w, call) {
+					bad = c.calleeName(w) + " at " + relPath(c, w.Pos())
+				}
+			})
+			if bad != "" {
+				o.add(VIOLATED, key, relPath(c, call.Pos()), "%s writes to the store before the delete-while-iterating scan runs in the same transaction: on bbolt the scan then skips every second entry (residue), on badger it does not - the backends diverge", bad)
+			} else {
+				o.add(OK, key, relPath(c, call.Pos()), "no store write precedes the delete-while-iterating scan in this function")
+			}
+		})
+	}
+	if n == 0 {
+		o.add(OK, "no delete-while-iterating scan", "-", "no function deletes inside a cursor loop")
 	}
 	return o.list
 }
